@@ -71,6 +71,19 @@ def run_property(mod, pid, tier, seed, only=None, jobs=0, keep=False, write_evid
                     violations.append(("mir", v))
                 elif v["verdict"] == "inconclusive":
                     inconclusive.append("VC %s: %s" % (v["name"], v.get("reason", "")))
+        # quick tier: an Engine-B candidate is replayed at once; when the real code reproduces it the verdict is settled and the
+        # solver time of Engine A is not spent (the command has to report inside its time cap)
+        replay_memo = {}
+        if tier == "quick" and violations:
+            from . import replay as _rp
+            for kind, v in violations:
+                rep = _rp.replay_mir(pid, v, work, log, mod)
+                replay_memo[id(v)] = rep
+                if rep["reproduced"] and match_known(pid, rep, v, kind) is None:
+                    for i in instances:
+                        skipped.append("%s: not started: a violation was already reproduced natively (%s)" % (i.name, v.get("name", "")[:60]))
+                    instances = []
+                    break
         # ------------------------------------------------------------- Engine A (Kani)
         if instances:
             ovdir = os.path.join(work, "ov")
@@ -129,6 +142,8 @@ def run_property(mod, pid, tier, seed, only=None, jobs=0, keep=False, write_evid
         for kind, v in violations:
             if kind == "kani":
                 rep = replay.replay_kani(pid, v, work, log)
+            elif id(v) in replay_memo:
+                rep = replay_memo[id(v)]
             else:
                 rep = replay.replay_mir(pid, v, work, log, mod)
             if rep["reproduced"]:
